@@ -62,6 +62,9 @@ impl Rng {
     }
     /// uniform in lo..=hi
     pub fn range(&mut self, lo: usize, hi: usize) -> usize {
+        if hi <= lo {
+            return lo;
+        }
         lo + self.below(hi - lo + 1)
     }
     pub fn chance(&mut self, num: usize, den: usize) -> bool {
